@@ -31,7 +31,6 @@ QuadOk(e) ==
 BoundsOk(e) ==
     /\ e.lo >= e.S - Tol
     /\ e.hi <= e.S + e.sat * SlackUnits(e.S) + Tol
-    /\ e.lo <= e.hi + (IF e.iso = 1 THEN 0 ELSE 2 * Tol + e.sat * SlackUnits(e.S))
 DirectOk(e) == e.r > 0 /\ (ref = 0 \/ AbsI(e.r - ref) <= Tol)
 
 Ok(e) == CASE e.ev = "quad"   -> QuadOk(e)
